@@ -12,6 +12,17 @@ def run_family(rep, pid, tier, seed):
     rep.notes.append('regression corpus: %d cases, %d failing' % (len(pre), n0))
     cases = GEN[pid](rnd, tier)
     run_buffer_family(rep, cases)
+    # operands of 64 KiB and more: oracle on the implementation only
+    from bufrun import big_oracle_cases
+    from bufcases import run_case, judge
+    for case in big_oracle_cases(rng_for(seed, pid + '-big'), pid, tier != 'quick'):
+        res = run_case(case)
+        fails = judge(case, res)
+        rep.count('op-64KiB:' + case[0], key=('big', case[0], case[1][0][1], len(case[1][0][0])))
+        rep.oracle_evals += 1
+        if fails:
+            rep.violation('property', '%s on a %d-bit operand: %s' % (case[0], len(case[1][0][0]), fails[0][:200]), dict(layer='buffer-big', op=case[0], bits_head=case[1][0][0][:64], length=len(case[1][0][0]), side=case[1][0][1], params=list(case[2])))
+            break
     # programs of operations on live buffers shadowed by bit strings (aliasing, caches, shared state)
     import bufseq
     bufseq.run(rep, rng_for(seed, pid + '-programs'), 150 if tier == 'quick' else 2500, 40)
